@@ -48,10 +48,14 @@ func c05NewOracle() *c05Oracle {
 	return &c05Oracle{panicPred: map[string]bool{}, classes: map[string]bool{}}
 }
 
-func (o *c05Oracle) class(c string)                       { o.classes[c] = true }
-func (o *c05Oracle) unspec(c string)                      { o.notPlain = true; o.classes[c] = true }
-func (o *c05Oracle) fail(known, f string, a ...any)       { o.mustFail = append(o.mustFail, c05Finding{fmt.Sprintf(f, a...), known}) }
-func (o *c05Oracle) mismatch(known, f string, a ...any)   { o.bad = append(o.bad, c05Finding{fmt.Sprintf(f, a...), known}) }
+func (o *c05Oracle) class(c string)  { o.classes[c] = true }
+func (o *c05Oracle) unspec(c string) { o.notPlain = true; o.classes[c] = true }
+func (o *c05Oracle) fail(known, f string, a ...any) {
+	o.mustFail = append(o.mustFail, c05Finding{fmt.Sprintf(f, a...), known})
+}
+func (o *c05Oracle) mismatch(known, f string, a ...any) {
+	o.bad = append(o.bad, c05Finding{fmt.Sprintf(f, a...), known})
+}
 func (o *c05Oracle) classList() []string {
 	out := make([]string, 0, len(o.classes))
 	for k := range o.classes {
@@ -143,7 +147,11 @@ func (o *c05Oracle) walkStruct(fs []c05Fld, obj *c05JV, val reflect.Value, path 
 			o.absent(f, fv, p)
 		case 1:
 			if ms[0].T == "null" {
+				// null is not covered by the statement (the code: error, or skipped when
+				// optional). Whatever is decided, an accepted struct can only hold the
+				// zero value or the declared default there.
 				o.unspec("null-field")
+				o.nullField(f, fv, p)
 				continue
 			}
 			o.value(&f.T, f, ms[0], fv, 0, p)
@@ -161,6 +169,61 @@ func (o *c05Oracle) walkStruct(fs []c05Fld, obj *c05JV, val reflect.Value, path 
 				}
 			}
 		}
+	}
+}
+
+func (o *c05Oracle) nullField(f *c05Fld, fv reflect.Value, p string) {
+	if !fv.IsValid() || fv.IsZero() {
+		return
+	}
+	switch fv.Kind() {
+	case reflect.Slice, reflect.Map:
+		if fv.Len() == 0 {
+			return
+		}
+	}
+	if f.Def != nil && c05IsScalar(f.T.K) {
+		dv := fv
+		if f.T.P {
+			dv = dv.Elem()
+		}
+		sub := c05NewOracle()
+		sub.scalarText(f.T.K, *f.Def, dv, p, false)
+		if len(sub.bad) == 0 {
+			return
+		}
+	}
+	o.mismatch("", "%s: document null, field holds %s (neither zero nor the declared default)", p, c05Sprint(fv))
+}
+
+// sliceDefault: the two unambiguous default syntaxes that are generated,
+// "[x,y]" for string elements and "[1,2]" for numeric elements.
+func (o *c05Oracle) sliceDefault(f *c05Fld, fv reflect.Value, p string) {
+	t := &f.T
+	def := *f.Def
+	if !strings.HasPrefix(def, "[") || !strings.HasSuffix(def, "]") || t.E.P || !(t.E.K == "string" || c05IsNumeric(t.E.K)) {
+		o.unspec("absent-slice-default-unspecified")
+		return
+	}
+	var items []string
+	if inner := strings.TrimSpace(def[1 : len(def)-1]); inner != "" {
+		for _, it := range strings.Split(inner, ",") {
+			items = append(items, strings.TrimSpace(it))
+		}
+	}
+	o.class("absent-slice-default")
+	if !fv.IsValid() {
+		return
+	}
+	if f.Opt && fv.Len() == 0 {
+		return
+	}
+	if fv.Len() != len(items) {
+		o.mismatch("", "%s: absent, default=%s declared, field has %d elements: %s", p, def, fv.Len(), c05Sprint(fv))
+		return
+	}
+	for i, it := range items {
+		o.scalarText(t.E.K, it, fv.Index(i), fmt.Sprintf("%s(default)[%d]", p, i), false)
 	}
 }
 
@@ -204,8 +267,7 @@ func (o *c05Oracle) absent(f *c05Fld, fv reflect.Value, p string) {
 	case t.K == "slice":
 		switch {
 		case f.Def != nil:
-			// slice defaults: only P0 (the statement does not define their syntax)
-			o.unspec("absent-slice-default")
+			o.sliceDefault(f, fv, p)
 		case f.Opt:
 			o.class("absent-optional")
 			if fv.IsValid() && fv.Len() != 0 {
@@ -285,10 +347,20 @@ func (o *c05Oracle) value(t *c05Typ, f *c05Fld, v *c05JV, fv reflect.Value, pos 
 			if pos != 0 {
 				o.panicPred["fillslice-nonslice-panic"] = true
 			}
-			if pos == 0 && v.T == "str" && t.E.P {
+			if pos == 0 && v.T == "str" {
 				var sl []any
 				if json.NewDecoder(strings.NewReader(v.S)).Decode(&sl) == nil {
-					o.panicPred["fillslicefromstring-ptr-elem-panic"] = true
+					if t.E.P {
+						o.panicPred["fillslicefromstring-ptr-elem-panic"] = true
+					}
+					for _, e := range sl {
+						if e == nil {
+							o.panicPred["fillslicefromstring-null-elem-panic"] = true
+						}
+						if _, isArr := e.([]any); isArr && t.E.K == "slice" {
+							o.panicPred["fillslicefromstring-nested-array-panic"] = true
+						}
+					}
 				}
 			}
 			return
@@ -744,13 +816,15 @@ func c05Call(fn func() error) (out c05Outcome) {
 }
 
 var c05PanicSig = map[string][]string{
-	"fillslice-nonslice-panic":    {"reflect: call of reflect.Value.IsNil on", "reflect: call of reflect.Value.Cap on", "reflect: call of reflect.Value.Len on", "reflect: call of reflect.Value.Index on"},
-	"fillslice-struct-elem-panic": {"interface conversion: interface {} is", "not map[string]interface {}"},
-	"generatemap-ptr-elem-panic":  {"reflect.Value.SetMapIndex: value of type"},
-	"duration-number-panic":       {"interface conversion: interface {} is json.Number, not string"},
-	"stringoption-number-options-panic": {"interface conversion: interface {} is json.Number, not string"},
-	"fillslicevalue-object-elem-panic":  {"reflect: Key of non-map type"},
-	"fillslicefromstring-ptr-elem-panic": {"reflect.Set: value of type []"},
+	"fillslice-nonslice-panic":               {"reflect: call of reflect.Value.IsNil on", "reflect: call of reflect.Value.Cap on", "reflect: call of reflect.Value.Len on", "reflect: call of reflect.Value.Index on"},
+	"fillslice-struct-elem-panic":            {"interface conversion: interface {} is", "not map[string]interface {}"},
+	"generatemap-ptr-elem-panic":             {"reflect.Value.SetMapIndex: value of type"},
+	"duration-number-panic":                  {"interface conversion: interface {} is json.Number, not string"},
+	"stringoption-number-options-panic":      {"interface conversion: interface {} is json.Number, not string"},
+	"fillslicevalue-object-elem-panic":       {"reflect: Key of non-map type"},
+	"fillslicefromstring-ptr-elem-panic":     {"reflect.Set: value of type []"},
+	"fillslicefromstring-nested-array-panic": {"reflect.Set: value of type []interface {} is not assignable"},
+	"fillslicefromstring-null-elem-panic":    {"invalid memory address or nil pointer dereference"},
 }
 
 func c05PanicKnown(o *c05Oracle, msg string) string {
